@@ -328,4 +328,11 @@ def run(rep, db, tier, seed):
                     rep.add(Obligation(name, 'discharged' if refuted else 'inconclusive', '' if refuted else 'the lemma holds even without its key hypothesis: harness is vacuous', paths=len(res)))
             except Unmodelled as u:
                 rep.add(Obligation(name, 'inconclusive', str(u)))
+    # the replica side of the rule: what a correct replica reports as its high vote is its latest commit vote
+    # (one step of the real on_proposal handler from an arbitrary state, see props/replica_checks.py)
+    try:
+        from props import replica_checks as RC
+        RC.run_all(rep, db, tier, ('C02',), handlers=('on_proposal',))
+    except Unmodelled as u:
+        rep.add(Obligation('on_proposal high-vote obligation', 'inconclusive', str(u)[:500]))
     rep.extra['explanation'] = 'one inductive step of the re-proposal rule and conformance to the specification on the real MIR, for all weights/votes/certificates within the committee-size bound'
